@@ -28,8 +28,8 @@ def lean_units(units):
     for st in ("GL", "HK"):
         for n in ("sm0_to0", "sm1_to1", "sm2_to2", "sm0_to3"):
             groups["Gen1"].append(byname["%s_N1_%s" % (st, n)])
-    for n in ("GL_N2_sm0_to1", "GL_N2_sm1_to1", "GL_N2_sm2_to1", "GL_N2_sm2_to2",
-              "GL_N3_sm0_to1", "GL_N3_sm1_to1", "GL_N3_sm2_to1"):
+    for n in ("GL_N2_sm0_to1", "GL_N2_sm1_to1",
+              "GL_N3_sm0_to1", "GL_N3_sm1_to1"):
         groups["Gen23"].append(byname[n])
     for n in ("HK_N2_sm0_to1", "HK_N3_sm0_to1"):
         v = copy.copy(byname[n])
